@@ -367,4 +367,58 @@ def gaussSolve (B : Mat) (v : Vec) : Option Vec :=
     gauss v.length (List.zipWith (fun r b => r ++ [b]) B v)
   else none
 
+/-! ## refinement trees (inductive characterisation of the valid 1-D point sets of the hierarchical Lagrange grids) -/
+
+/-- dyadic refinement tree below an interval: a `node` splits the interval at its midpoint; the midpoint gets the
+level of the interval + 1 -/
+inductive RTree where
+  | leaf : RTree
+  | node (l r : RTree) : RTree
+
+/-- one grid point: coordinate, level, windowed knots, index of the point in them -/
+structure HNode where
+  x : Rat
+  lev : Nat
+  knots : List Rat
+  idx : Nat
+
+/-- the basis function of the point: `LagrangeBasisRestricted(p, idx, knots)` -/
+def HNode.phi (e : HNode) : Rat → Rat := lagrangeR e.knots e.idx
+
+/-- in-order traversal of the points strictly inside `(lo,hi)`; `F` = the full (un-windowed) knot list inherited from
+the parent (`parents[parent]`: the end points and all ancestors), to which the point itself is added; `p+1` window -/
+def RTree.nodes (p : Nat) : RTree → Rat → Rat → Nat → List Rat → List HNode
+  | .leaf, _, _, _, _ => []
+  | .node l r, lo, hi, lv, F =>
+    let m := (lo + hi) / 2
+    let F' := insertSorted m F
+    let W := window p F' m
+    l.nodes p lo m (lv + 1) F' ++ { x := m, lev := lv + 1, knots := W, idx := indexOf m W } :: r.nodes p m hi (lv + 1) F'
+
+/-- the whole 1-D grid on `[a,b]` (boundary points of level 0 with the knots `[a,b]`) -/
+def RTree.grid (p : Nat) (t : RTree) (a b : Rat) : List HNode :=
+  { x := a, lev := 0, knots := window p [a, b] a, idx := indexOf a (window p [a, b] a) }
+    :: t.nodes p a b 0 [a, b]
+    ++ [{ x := b, lev := 0, knots := window p [a, b] b, idx := indexOf b (window p [a, b] b) }]
+
+/-- the dimension of a hierarchical Lagrange grid of order `p` on the tree -/
+def RTree.dim1 (p : Nat) (t : RTree) (a b : Rat) : Dim1 :=
+  { basis := (t.grid p a b).map HNode.phi, xs := (t.grid p a b).map HNode.x }
+
+/-- the tree of a sorted point list with levels, if it is one: the midpoint of `(lo,hi)` must carry level `lv+1`
+(fuel = number of points) -/
+def RTree.ofPoints : Nat → List (Rat × Nat) → Rat → Rat → Nat → Option RTree
+  | 0, pts, _, _, _ => if pts.isEmpty then some .leaf else none
+  | fuel + 1, pts, lo, hi, lv =>
+    if pts.isEmpty then some .leaf else
+    let m := (lo + hi) / 2
+    let left := pts.filter fun q => decide (q.1 < m)
+    let right := pts.filter fun q => decide (m < q.1)
+    if pts.any (fun q => q.1 == m && q.2 == lv + 1) && left.length + right.length + 1 == pts.length
+        && pts.all (fun q => decide (lo < q.1) && decide (q.1 < hi)) then
+      match RTree.ofPoints fuel left lo m (lv + 1), RTree.ofPoints fuel right m hi (lv + 1) with
+      | some l, some r => some (.node l r)
+      | _, _ => none
+    else none
+
 end SparseSpace.Hier
